@@ -396,7 +396,7 @@ pub fn snapshot_xml(
     Bytes::from(res)
 }
 
-#[derive(Clone, Debug)]
+#[derive(Clone, Debug, PartialEq, Eq)]
 pub enum Change {
     /// uri, hash of replaced object if any, new content
     Publish(String, Option<[u8; 32]>, Bytes),
@@ -471,6 +471,11 @@ pub struct RrdpSrv {
     /// Retained deltas, oldest first: the serial they lead to and changes.
     pub deltas: Vec<(u64, Vec<Change>)>,
     pub max_deltas: usize,
+    /// Identity of this state in a recorded history and of the state it was
+    /// derived from (used by Engine B to follow lineages after the server
+    /// rewrote its history).
+    pub hist_id: u64,
+    pub hist_parent: Option<u64>,
 }
 
 pub fn uuid_from(a: u64, b: u64) -> String {
@@ -482,6 +487,7 @@ impl RrdpSrv {
         RrdpSrv {
             host: host.into(), session, serial: 1,
             objects: BTreeMap::new(), deltas: Vec::new(), max_deltas: 5,
+            hist_id: 0, hist_parent: None,
         }
     }
 
